@@ -143,7 +143,7 @@ def Quat.distance (a b : Quat α) : α := Transc.sqrt (Quat.distance2 a b)
 def Quat.normalizeTo (q : Quat α) (m : α) : Quat α := q * (m / q.magnitude)
 def Quat.normalize (q : Quat α) : Quat α := q.normalizeTo 1
 /-- default `InnerSpace::angle` -/
-def Quat.angle (a b : Quat α) : α := Transc.acos (Quat.dot a b / (a.magnitude * b.magnitude))
+def Quat.angle (a b : Quat α) : α := Transc.acos (clampUnit (Quat.dot a b / (a.magnitude * b.magnitude)))
 def Quat.projectOn (a b : Quat α) : Quat α := b * (Quat.dot a b / b.magnitude2)
 
 /-- which of the four cases `From<Matrix3> for Quaternion` takes -/
